@@ -55,7 +55,16 @@ pub enum Step {
 	PhantomRelease { leaf: Lid },
 	IsPoisoned { target: TargetRef },
 	ClearPoison { target: TargetRef },
-	Debug { target: TargetRef },
+	/// `{:?}` of a target; with `cap` the output goes into a sink that fails
+	/// after that many bytes (formatting is abandoned part-way)
+	Debug {
+		target: TargetRef,
+		#[serde(default)]
+		cap: Option<u16>,
+		/// 0: payloads print normally, 1: their Debug returns Err, 2: it panics
+		#[serde(default)]
+		payload: u8,
+	},
 	Accessors { target: TargetRef },
 	/// build a temporary by-reference collection over existing members with a
 	/// checked constructor, then drop it / take it apart again
